@@ -659,6 +659,20 @@ func runC18File(c C18FileCase, _ bool) *fOutcome {
 	default:
 		out.Failure = ffail("C18", "partial-file", 0, "crash at %s: file holds %d bytes that are neither the old (%d) nor the new (%d) content", c.Label, len(got), len(oldB), len(newB))
 	}
+	if out.Failure != nil {
+		return out
+	}
+	// the next rewrite after the crash (shorter content) must again leave exactly its own bytes
+	next := bytes.Repeat([]byte("n"), len(newB)/3+1)
+	if err := writeFileAtomic(target, next); err != nil {
+		out.Failure = ffail("C18", "rewrite-after-crash-failed", 0, "crash at %s, then a normal rewrite: %v", c.Label, err)
+		return out
+	}
+	if got2, err := os.ReadFile(target); err != nil || !bytes.Equal(got2, next) {
+		out.Failure = ffail("C18", "rewrite-after-crash-corrupt", 0, "crash at %s, then a normal rewrite of %d bytes: the file holds %d bytes (err %v) that are not the submitted content", c.Label, len(next), len(got2), err)
+		return out
+	}
+	out.Labels["rewrite-after-crash-ok"] = true
 	return out
 }
 
